@@ -15,7 +15,15 @@
    bytes the command wrote into the temporary file) and to %dirscan(directory) (not followed /
    opendir fails / the names of the regular files in readdir order): parameters like genv, over
    which every theorem quantifies; a command's output is a list of bytes shorter than 4 GB, file
-   names are NUL-free. *)
+   names are NUL-free.
+   ex and uf are the functions the application registered with spifconf_register_builtin: ex lists
+   (name, code) in registration order - the function table that the scan for a %name( walks is the
+   library's own entries (Gen/ExpandGen.v, from spifconf_init_subsystem) followed by ex, ANY number of
+   them -, uf code arg is what the function answers (NULL or a string) for arg = NULL or the text of
+   its expanded argument: parameters like genv; names are C strings, answers are C strings shorter
+   than 4 GB.  That the table in memory really ends in a NULL name after any number of registrations is
+   C11_builtins_terminated (model of spifconf_register_builtin) and, on the implementation side, the
+   registered-function stratum of the correspondence check. *)
 From LV Require Import Base.Buf Strings.HelpersModel Split.SplitModel
   Expand.ExpandModel Expand.ExpandSpec Expand.ExpandLemmas Expand.StoreProofs
   Expand.ExpandProofs Expand.ExpandTheorems.
@@ -28,9 +36,11 @@ Theorem C10_expand_no_overread : forall genv pn pv xo dl,
   (forall n v, genv n = Some v -> val_ok v) -> Forall nz_byte pn -> val_ok pv ->
   (forall c o, xo c = ExecOut o -> Forall is_byte o /\ small o) ->
   (forall d ns, dl d = DirList ns -> Forall (Forall nz_byte) ns) ->
+  forall ex uf, Forall (fun e => Forall nz_byte (fst e)) ex ->
+  (forall code a v, (forall o, a = Some o -> arg_ok o) -> uf code a = Some v -> val_ok v) ->
   forall s st, Forall nz_byte s -> (length s < CB)%nat -> store_ok st ->
-  exists r, shell_expand_reads genv pn pv xo dl (S (length s)) (cstr s []) st = Ok r.
-Proof. intros genv pn pv xo dl H1 H2 H3 H4 H5 s st. exact (expand_no_overread genv pn pv xo dl H1 H2 H3 H4 H5 s [] st). Qed.
+  exists r, shell_expand_reads genv pn pv xo dl ex uf (S (length s)) (cstr s []) st = Ok r.
+Proof. intros genv pn pv xo dl H1 H2 H3 H4 H5 ex uf H6 H7 s st. exact (expand_no_overread genv pn pv xo dl H1 H2 H3 H4 H5 ex uf H6 H7 s [] st). Qed.
 Print Assumptions C10_expand_no_overread.
 
 (* the same with anything behind the terminator, e.g. cells that were never written *)
@@ -38,8 +48,10 @@ Theorem C10_expand_no_overread_any_slack : forall genv pn pv xo dl,
   (forall n v, genv n = Some v -> val_ok v) -> Forall nz_byte pn -> val_ok pv ->
   (forall c o, xo c = ExecOut o -> Forall is_byte o /\ small o) ->
   (forall d ns, dl d = DirList ns -> Forall (Forall nz_byte) ns) ->
+  forall ex uf, Forall (fun e => Forall nz_byte (fst e)) ex ->
+  (forall code a v, (forall o, a = Some o -> arg_ok o) -> uf code a = Some v -> val_ok v) ->
   forall s rest st, Forall nz_byte s -> (length s < CB)%nat -> store_ok st ->
-  exists r, shell_expand_reads genv pn pv xo dl (S (length s)) (cstr s rest) st = Ok r.
+  exists r, shell_expand_reads genv pn pv xo dl ex uf (S (length s)) (cstr s rest) st = Ok r.
 Proof. exact expand_no_overread. Qed.
 Print Assumptions C10_expand_no_overread_any_slack.
 
@@ -48,8 +60,10 @@ Theorem C10_expand_cells_below_j_written : forall genv pn pv xo dl,
   (forall n v, genv n = Some v -> val_ok v) -> Forall nz_byte pn -> val_ok pv ->
   (forall c o, xo c = ExecOut o -> Forall is_byte o /\ small o) ->
   (forall d ns, dl d = DirList ns -> Forall (Forall nz_byte) ns) ->
+  forall ex uf, Forall (fun e => Forall nz_byte (fst e)) ex ->
+  (forall code a v, (forall o, a = Some o -> arg_ok o) -> uf code a = Some v -> val_ok v) ->
   forall s rest st nb j st', Forall nz_byte s -> (length s < CB)%nat -> store_ok st ->
-  shell_expand_reads genv pn pv xo dl (S (length s)) (cstr s rest) st = Ok (LDone nb j st') ->
+  shell_expand_reads genv pn pv xo dl ex uf (S (length s)) (cstr s rest) st = Ok (LDone nb j st') ->
   0 <= j <= config_buff /\ length nb = CB /\
   exists pre, Z.of_nat (length pre) = j /\ firstn (Z.to_nat j) nb = bytes pre.
 Proof. exact expand_cells_written. Qed.
@@ -64,8 +78,10 @@ Theorem C10_expand_initialised : forall genv pn pv xo dl,
   (forall n v, genv n = Some v -> val_ok v) -> Forall nz_byte pn -> val_ok pv ->
   (forall c o, xo c = ExecOut o -> Forall is_byte o /\ small o) ->
   (forall d ns, dl d = DirList ns -> Forall (Forall nz_byte) ns) ->
+  forall ex uf, Forall (fun e => Forall nz_byte (fst e)) ex ->
+  (forall code a v, (forall o, a = Some o -> arg_ok o) -> uf code a = Some v -> val_ok v) ->
   forall s rest st, Forall nz_byte s -> (length s < CB)%nat -> (CB <= length (cstr s rest))%nat -> store_ok st ->
-  exists x st', shell_expand genv pn pv xo dl (S (length s)) (cstr s rest) st = Ok (x, st') /\
+  exists x st', shell_expand genv pn pv xo dl ex uf (S (length s)) (cstr s rest) st = Ok (x, st') /\
     store_ok st' /\
     match x with
     | XBuf s' => exists o junk, s' = cstr o junk /\ Forall nz_byte o /\ Z.of_nat (length o) < config_buff /\
@@ -83,18 +99,20 @@ Theorem C10_expand_spec : forall genv pn pv xo dl,
   (forall n v, genv n = Some v -> val_ok v) -> Forall nz_byte pn -> val_ok pv ->
   (forall c o, xo c = ExecOut o -> Forall is_byte o /\ small o) ->
   (forall d ns, dl d = DirList ns -> Forall (Forall nz_byte) ns) ->
+  forall ex uf, Forall (fun e => Forall nz_byte (fst e)) ex ->
+  (forall code a v, (forall o, a = Some o -> arg_ok o) -> uf code a = Some v -> val_ok v) ->
   forall s rest st, Forall nz_byte s -> (length s < CB)%nat -> (CB <= length (cstr s rest))%nat -> store_ok st ->
-  match expand_spec genv pn pv xo dl s st with
+  match expand_spec genv pn pv xo dl ex uf s st with
   | SOut o st' pk =>
     Z.of_nat (length o) < maxj -> Z.of_nat pk < maxj ->
-    shell_expand genv pn pv xo dl (S (length s)) (cstr s rest) st =
+    shell_expand genv pn pv xo dl ex uf (S (length s)) (cstr s rest) st =
     Ok (XBuf (cstr o (skipn (S (length o)) (cstr s rest))), st')
   | SStop StNull st' m pk =>
     Z.of_nat m < maxj -> Z.of_nat pk < maxj ->
-    shell_expand genv pn pv xo dl (S (length s)) (cstr s rest) st = Ok (XNull, st')
+    shell_expand genv pn pv xo dl ex uf (S (length s)) (cstr s rest) st = Ok (XNull, st')
   | SStop (StExt e) _ m pk =>
     Z.of_nat m < maxj -> Z.of_nat pk < maxj ->
-    shell_expand genv pn pv xo dl (S (length s)) (cstr s rest) st = Ok (XExt e, st)
+    shell_expand genv pn pv xo dl ex uf (S (length s)) (cstr s rest) st = Ok (XExt e, st)
   | SFuel => False
   end.
 Proof. exact expand_spec_holds. Qed.
@@ -187,7 +205,7 @@ Qed.
 
 (* "[%exec(ls)|%dirscan(d)]" expands to "[b a|x yy ]" *)
 Example C10_ex_world_run :
-  match shell_expand (getenv_of ex_env) [69] [49] ex_exec ex_dir 24
+  match shell_expand (getenv_of ex_env) [69] [49] ex_exec ex_dir [] (fun _ _ => None) 24
           (cstr [91; 37; 101; 120; 101; 99; 40; 108; 115; 41; 124; 37; 100; 105; 114; 115; 99; 97; 110; 40; 100; 41; 93]
                 (repeat None (CB - 24))) [] with
   | Ok (XBuf b, _) => take_str b = [91; 98; 32; 97; 124; 120; 32; 121; 121; 32; 93]
@@ -196,7 +214,7 @@ Example C10_ex_world_run :
 Proof. vm_compute. reflexivity. Qed.
 
 Example C10_ex_run :
-  match shell_expand (getenv_of ex_env) [69] [49] ex_exec ex_dir (S (length ex_text))
+  match shell_expand (getenv_of ex_env) [69] [49] ex_exec ex_dir [] (fun _ _ => None) (S (length ex_text))
                      (cstr ex_text (repeat None (CB - length ex_text - 1))) [] with
   | Ok (XBuf b, st) => take_str b = [120; 47; 104; 118; 97; 46; 118; 97; 91; 118; 93; 10] /\ st = [([107], [118])]
   | _ => False
@@ -204,13 +222,52 @@ Example C10_ex_run :
 Proof. vm_compute. split; reflexivity. Qed.
 
 Example C10_ex_spec :
-  expand_spec (getenv_of ex_env) [69] [49] ex_exec ex_dir ex_text [] =
+  expand_spec (getenv_of ex_env) [69] [49] ex_exec ex_dir [] (fun _ _ => None) ex_text [] =
   SOut [120; 47; 104; 118; 97; 46; 118; 97; 91; 118; 93; 10] [([107], [118])] 3.
+Proof. vm_compute. reflexivity. Qed.
+
+(* five functions registered by the application - f0 .. f3 and "" (the empty name: "%(" calls it) - with
+   codes 7 .. 11; function k answers "<" ++ its argument ++ ">", f3 answers NULL *)
+Definition ex_extra : list (list byte * Z) :=
+  [([102; 48], 7); ([102; 49], 8); ([102; 50], 9); ([102; 51], 10); ([], 11)].
+Definition ex_ufn (code : Z) (a : option (list byte)) : option (list byte) :=
+  if code =? 10 then None else Some (60 :: match a with Some t => t | None => [] end ++ [62]).
+
+Example C10_ex_functions_ok :
+  Forall (fun e : list byte * Z => Forall nz_byte (fst e)) ex_extra /\
+  (forall code a v, (forall o, a = Some o -> arg_ok o) -> ex_ufn code a = Some v -> val_ok v).
+Proof.
+  split; [unfold ex_extra, nz_byte; repeat constructor; cbn; lia|].
+  intros code a v Ha. unfold ex_ufn. destruct (code =? 10); [discriminate|]. intros E. injection E as <-.
+  assert (H : arg_ok match a with Some t => t | None => [] end).
+  { destruct a as [t|]; [now apply Ha|]. split; [constructor|pose proof cb_bounds; simpl; lia]. }
+  destruct H as [Hn Hs]. pose proof cb_bounds. split.
+  - constructor; [unfold nz_byte; lia|]. apply Forall_app. split; [exact Hn|constructor; [unfold nz_byte; lia|constructor]].
+  - unfold small. cbn [length]. rewrite app_length. cbn [length]. lia.
+Qed.
+
+(* "a 100% b %nosuch(1)|%f2(x %F0(y))|%f3(q)|%(z)|%f1 )w)|%f1": a % that starts no call in a table of 12 entries, a call to an
+   unknown name, nested calls to registered functions (any letter case, both call forms), a function that answers
+   NULL, the function with the empty name, a registered name without parentheses *)
+Definition ex_ftext : list byte :=
+  [97; 32; 49; 48; 48; 37; 32; 98; 32; 37; 110; 111; 115; 117; 99; 104; 40; 49; 41; 124; 37; 102; 50; 40; 120; 32; 37; 70; 48; 40; 121; 41; 41; 124; 37; 102; 51; 40; 113; 41; 124; 37; 40; 122; 41; 124; 37; 102; 49; 32; 41; 119; 41; 124; 37; 102; 49].
+(* "a 100 b nosuch(1)|<x <y>>||<z>|<w>|f1" *)
+Definition ex_fout : list byte :=
+  [97; 32; 49; 48; 48; 32; 98; 32; 110; 111; 115; 117; 99; 104; 40; 49; 41; 124; 60; 120; 32; 60; 121; 62; 62; 124; 124; 60; 122; 62; 124; 60; 119; 62; 124; 102; 49].
+Example C10_ex_functions_run :
+  match shell_expand (getenv_of ex_env) [69] [49] ex_exec ex_dir ex_extra ex_ufn (S (length ex_ftext))
+                     (cstr ex_ftext (repeat None (CB - length ex_ftext - 1))) [] with
+  | Ok (XBuf b, st) => take_str b = ex_fout /\ st = []
+  | _ => False
+  end.
+Proof. vm_compute. split; reflexivity. Qed.
+Example C10_ex_functions_spec :
+  expand_spec (getenv_of ex_env) [69] [49] ex_exec ex_dir ex_extra ex_ufn ex_ftext [] = SOut ex_fout [] 5.
 Proof. vm_compute. reflexivity. Qed.
 
 (* inputs that end inside a construct, in exactly sized objects *)
 Example C10_ex_endings :
-  forallb (fun s => is_ok (shell_expand_reads (getenv_of ex_env) [69] [49] ex_exec ex_dir (S (length s)) (cstr s []) []))
+  forallb (fun s => is_ok (shell_expand_reads (getenv_of ex_env) [69] [49] ex_exec ex_dir [] (fun _ _ => None) (S (length s)) (cstr s []) []))
     [[92]; [37]; [36]; [36; 123]; [36; 40]; [36; 123; 65]; [37; 103; 101; 116; 40]; [39; 92]; [126]; [97; 96]] = true.
 Proof. vm_compute. reflexivity. Qed.
 
